@@ -24,7 +24,11 @@ impl Version {
     /// This function never returns `Ok(IpVersion::Unspecified)`; instead,
     /// unknown versions result in `Err(Error)`.
     pub const fn of_packet(data: &[u8]) -> Result<Version> {
-        match data[0] >> 4 {
+        // An empty buffer holds no IP packet (and must not panic).
+        let [first, ..] = data else {
+            return Err(Error);
+        };
+        match *first >> 4 {
             #[cfg(feature = "proto-ipv4")]
             4 => Ok(Version::Ipv4),
             #[cfg(feature = "proto-ipv6")]
